@@ -154,6 +154,9 @@ func (fv *FV) load(st *State, p SymVal, elemT types.Type, pos token.Pos) SymVal 
 		g := p.Global
 		el := g.Type().(*types.Pointer).Elem()
 		name := "G_" + smtName(g.Pkg.Pkg.Name()+"_"+g.Name())
+		if isRepoPkg(g.Pkg) {
+			fv.globalsRead[g.Name()] = true
+		}
 		h := fv.heapGet(st.heap, st.epoch, name, fv.sortOf(el))
 		h.T = el
 		if len(p.Path) > 0 {
